@@ -1,4 +1,5 @@
 mod engine;
+mod detsim;
 mod domsim;
 mod env;
 mod iosim;
@@ -20,6 +21,7 @@ pub fn make_engine(name: &str) -> Box<dyn engine::Engine> {
         "iosim" => Box::new(iosim::IoSim::new()),
         "schedsim" => Box::new(schedsim::SchedSim::new()),
         "domsim" => Box::new(domsim::DomSim::new()),
+        "detsim" => Box::new(detsim::DetSim::new()),
         "domsim+schedsim" => Box::new(engine::Composite {
             name: "domsim+schedsim",
             parts: vec![
@@ -49,6 +51,7 @@ fn check_cfg(property: &str, thorough: bool) -> Option<orch::CheckCfg> {
     let (engine, level, runs_q, runs_t, chunk) = match property {
         "C13" => ("iosim", "fault_enumeration", 60_000u64, 1_200_000u64, 500u64),
         "C18" => ("schedsim", "exploration", 40_000u64, 1_000_000u64, 500u64),
+        "C07" => ("detsim", "exploration", 20_000u64, 600_000u64, 250u64),
         "C09" => ("domsim", "exploration", 60_000u64, 2_000_000u64, 500u64),
         "C10" => ("domsim", "exploration", 60_000u64, 2_000_000u64, 500u64),
         "C11" => ("domsim", "exploration", 60_000u64, 2_000_000u64, 500u64),
@@ -70,6 +73,7 @@ fn check_cfg(property: &str, thorough: bool) -> Option<orch::CheckCfg> {
         det_chunks: if thorough { 48 } else { 16 },
         max_shrink: 300,
         extra_assumptions: vec![],
+        cross_env: property == "C07",
         components: components(),
     })
 }
@@ -78,7 +82,7 @@ fn main() {
     let args: Vec<String> = std::env::args().collect();
     let code = match args.get(1).map(|s| s.as_str()) {
         Some("worker") => worker::worker_main(&args[2]),
-        Some("exec-trace") => worker::exec_trace_main(&args[2]),
+        Some("exec-trace") => worker::exec_trace_main(&args[2], args.get(3).and_then(|s| s.parse().ok())),
         Some("replay") => orch::replay_main(&args[2]),
         Some("check") => {
             let property = args.get(2).cloned().unwrap_or_default();
